@@ -76,6 +76,7 @@ pub fn reset() {
         }
         MAP_COUNT = 0;
         MAP_BAD_UNMAP = 0;
+        BIG_ARENA_USED = false;
         let mut i = 0;
         while i < MAP_CAP {
             MAPS[i] = MapSlot { addr: 0, len: 0, mapped: false };
@@ -318,6 +319,12 @@ pub fn bad_unmaps() -> usize {
 /// backing store handed out by the mmap contract, so that code which reads the mapping it was just
 /// given (setup_io_uring reads ring parameters through it) dereferences real memory
 pub static mut ARENA: [[u64; 64]; MAP_CAP] = [[0; 64]; MAP_CAP];
+/// one large region for the allocator harness (dlmalloc asks the system for >= 64 KiB at a time)
+pub const BIG_ARENA_WORDS: usize = 20 * 1024;
+pub static mut BIG_ARENA: [u64; BIG_ARENA_WORDS] = [0; BIG_ARENA_WORDS];
+pub static mut BIG_ARENA_USED: bool = false;
+/// mmap requests larger than a small ring mapping are served from BIG_ARENA (once) when this is set
+pub const MODE_BIG_ARENA: u32 = 256;
 
 fn map_fresh(len: usize) -> usize {
     unsafe {
@@ -523,6 +530,17 @@ pub unsafe fn dispatch(n: usize, args: [usize; 7], nargs: u8) -> usize {
         fd_close(args[0]);
         // close releases the descriptor whatever it returns (Linux semantics)
         ret = choose_zero_or_err();
+    } else if mode & MODE_BIG_ARENA != 0 && n == nr::MMAP {
+        // the operating system grants at most one region of up to 160 KiB, or refuses
+        let fail = choose(3) != 0;
+        if fail || BIG_ARENA_USED || args[1] > BIG_ARENA_WORDS * 8 {
+            ret = (0isize - 12) as usize; // -ENOMEM
+        } else {
+            BIG_ARENA_USED = true;
+            ret = BIG_ARENA.as_ptr() as usize;
+        }
+    } else if mode & MODE_BIG_ARENA != 0 && (n == nr::MUNMAP || n == nr::MREMAP) {
+        ret = (0isize - 22) as usize; // -EINVAL: the harness region is never given back / resized
     } else if mode & MODE_MAPS != 0 && n == nr::MMAP {
         let fail = choose(3) != 0;
         ret = if fail { choose_err() } else { map_fresh(args[1]) };
